@@ -33,6 +33,9 @@ def load_known():
 
 
 def in_scope(prop, failure):
+    kinds = PROPS[prop].get("kinds")
+    if kinds and not any(failure.get("kind", "").startswith(k) for k in kinds):
+        return False
     scope = PROPS[prop].get("scope")
     if not scope:
         return True
